@@ -240,6 +240,22 @@ func (r *Recorder) addSample(sub string, enc []byte) {
 // Violation records a failing case, writes the replay file and prints the
 // VIOLATION line.
 func (r *Recorder) Violation(sub string, enc []byte, err error) string {
+	if strings.Contains(err.Error(), "harness:") {
+		// a defect of the checking machinery itself (generator produced an input outside its own contract,
+		// scratch directory problems, ...) is never reported as a violation of the property
+		msg := err.Error()
+		if len(msg) > 800 {
+			msg = msg[:800]
+		}
+		dir := filepath.Join(r.Root, "replays", r.Meta.ID)
+		_ = os.MkdirAll(dir, 0o755)
+		doc := replayDoc{Property: r.Meta.ID, Sub: sub, Error: err.Error(), Case: json.RawMessage(enc)}
+		if b, mErr := json.MarshalIndent(doc, "", " "); mErr == nil {
+			_ = os.WriteFile(filepath.Join(dir, fmt.Sprintf("harness-%s-%d-%016x.json", sub, r.Seed, hashOf(sub, enc))), b, 0o644)
+		}
+		r.Inconclusive("sub " + sub + ": " + strings.ReplaceAll(msg, "\n", " | "))
+		return ""
+	}
 	r.part.Violations++
 	dir := filepath.Join(r.Root, "replays", r.Meta.ID)
 	_ = os.MkdirAll(dir, 0o755)
